@@ -465,7 +465,19 @@ fn gen_client_near(r: &mut Rng, p: &Pfx) -> Cl {
         match r.below(6) {
             0 | 1 | 2 => Cl::V4(x as u32),
             3 | 4 => Cl::V6(MAPPED | x),
-            _ => Cl::V6(*r.pick(&[0xfffe_0000_0000u128, 1u128 << 48, 1u128 << 127, 0]) | (MAPPED & r.next() as u128) | x),
+            _ => {
+                // near miss: the mapped form with exactly one of its upper 96 bits flipped
+                let bit = match r.below(8) {
+                    0 => 32,
+                    1 => 47,
+                    2 => 48,
+                    3 => 127,
+                    4 => 120,
+                    5 => 119,
+                    _ => 32 + r.below(96) as u32,
+                };
+                Cl::V6((MAPPED | x) ^ (1u128 << bit))
+            }
         }
     } else if x >> 32 == 0xffff && r.chance(1, 2) {
         Cl::V4(x as u32)
